@@ -64,16 +64,29 @@ func (e *eventV2) SenderID() spec.SenderID {
 }
 
 func (e *eventV2) EventID() string {
-	// if we already generated the eventID, don't do it again
+	// The constructors populate the event ID, so that this accessor never
+	// writes to the event and is safe for concurrent use.
 	if e.EventIDRaw != "" {
 		return e.EventIDRaw
 	}
+	// Not reached for events made by the constructors below. Deliberately does
+	// not cache: a write here would race with concurrent readers of the event.
 	ref, err := referenceOfEvent(e.eventJSON, e.roomVersion)
 	if err != nil {
 		panic(fmt.Errorf("failed to generate reference of event: %w", err))
 	}
-	e.EventIDRaw = ref.EventID
 	return ref.EventID
+}
+
+// populateEventID computes the event ID once, while the event is still
+// private to the goroutine constructing it.
+func (e *eventV2) populateEventID(verImpl IRoomVersion) error {
+	ref, err := referenceOfEventForVersion(e.eventJSON, verImpl)
+	if err != nil {
+		return fmt.Errorf("failed to generate reference of event: %w", err)
+	}
+	e.EventIDRaw = ref.EventID
+	return nil
 }
 
 func (e *eventV2) Redact() {
@@ -101,6 +114,7 @@ func (e *eventV2) Redact() {
 	res.redacted = true
 	res.eventJSON = eventJSON
 	res.roomVersion = e.roomVersion
+	res.EventIDRaw = e.EventID() // redaction does not change the event ID
 	*e = res
 }
 
@@ -178,6 +192,10 @@ func newEventFromUntrustedJSONV2(eventJSON []byte, roomVersion IRoomVersion) (PD
 			err = CheckFields(result)
 			return result, err
 		}
+	}
+
+	if err = res.populateEventID(roomVersion); err != nil {
+		return nil, err
 	}
 
 	err = CheckFields(res)
@@ -277,6 +295,9 @@ func newEventFromTrustedJSONV2(eventJSON []byte, redacted bool, roomVersion IRoo
 	res.roomVersion = roomVersion.Version()
 	res.redacted = redacted
 	res.eventJSON = eventJSON
+	if err := res.populateEventID(roomVersion); err != nil {
+		return nil, err
+	}
 	return &res, nil
 }
 
